@@ -1,6 +1,7 @@
 package simharness
 
 import (
+	"syscall"
 	"encoding/json"
 	"flag"
 	"fmt"
@@ -119,6 +120,7 @@ func runCase(p *Property, c *Ctx) (f *failure) {
 	gtree.SimResetGlobals()
 	markdown.SimResetGlobals()
 	color.NoColor = true // (what fatih/color decides at start-up when stdout is not a terminal)
+	syscall.Umask(0o022) // the process's file mode creation mask, as at start-up
 	defer func() {
 		if r := recover(); r != nil {
 			if _, ok := r.(caseAbort); ok {
